@@ -1,6 +1,7 @@
 package main
 
 import (
+	"0chain.net/chaincore/transaction"
 	"time"
 
 	"verif/lib/chainsim"
@@ -38,6 +39,10 @@ func governanceAlphabet(w *world.World) []chainsim.Action {
 	add("minersc", "update_settings", "bad2", "max_n", "abc", "min_n", "xyz")
 	add("minersc", "update_settings", "bad3", "max_n", "abc", "min_n", "xyz", "max_s", "q")
 	add("minersc", "update_settings", "valid+bad", "max_delegates", "120", "nosuchkey", "1")
+	// an entry of the MAP-valued part of the settings (cost table) applied before a later entry fails:
+	// a copy of the cached settings node that shares the map would keep the rejected cost
+	add("minersc", "update_settings", "cost+bad", "cost.add_miner", "999", "max_n", "abc")
+	add("minersc", "update_settings", "cost-valid", "cost.add_miner", "500")
 	add("minersc", "update_settings", "unknown2", "nosuchkey1", "1", "nosuchkey2", "2")
 	add("minersc", "update_settings", "fails-validate", "max_n", "1", "min_n", "5")
 	// minersc update_globals
@@ -57,6 +62,19 @@ func governanceAlphabet(w *world.World) []chainsim.Action {
 	add("vestingsc", "vestingsc-update-settings", "bad2", "min_lock", "abc", "max_destinations", "xyz")
 	add("zcnsc", "update-global-config", "valid1", "min_mint", "2")
 	add("zcnsc", "update-global-config", "bad2", "min_mint", "abc", "min_burn", "xyz")
+	// two transactions in ONE block: a rejected update followed by an accepted one (they share the block's cache)
+	sameBlock := func(tag string, first, second map[string]any) {
+		o := w.Actors["owner"]
+		acts = append(acts, chainsim.Action{Name: "minersc.update_settings(owner)-same-block-" + tag,
+			Before: func(x *chainsim.Ctx) []*world.TxnSpec {
+				return []*world.TxnSpec{{From: o, To: world.SCAddresses["minersc"], Type: transaction.TxnTypeSmartContract, Nonce: x.Nonce(o) + 1, Data: world.SC("update_settings", first)}}
+			},
+			Build: func(x *chainsim.Ctx) *world.TxnSpec {
+				return &world.TxnSpec{From: o, To: world.SCAddresses["minersc"], Type: transaction.TxnTypeSmartContract, Nonce: x.Nonce(o) + 2, Data: world.SC("update_settings", second)}
+			}})
+	}
+	sameBlock("cost+bad-then-valid", fieldsInput("cost.add_miner", "999", "max_n", "abc"), fieldsInput("max_delegates", "101"))
+	sameBlock("bad2-then-valid", fieldsInput("max_n", "abc", "min_n", "xyz"), fieldsInput("reward_rate", "0.6"))
 	// a stranger
 	acts = append(acts, call(w, "c0", "minersc", "update_settings", fieldsInput("max_delegates", "7"), 0, 0, "-stranger"))
 	// readers of the settings nodes
@@ -67,7 +85,10 @@ func governanceAlphabet(w *world.World) []chainsim.Action {
 func c06(run *ev.Run) {
 	w := world.New(world.Options{})
 	acts := governanceAlphabet(w)
-	e := &chainsim.Explorer{Run: run, W: w, Actions: acts, Depth: run.Pick(2, 3), Budget: time.Duration(run.Pick(50, 780)) * time.Second}
+	// second start state: the settings nodes have been written (and are therefore in a warm cache)
+	// before the explored sequence starts — a rejected update can only leak into an entry that is cached
+	roots := [][]chainsim.Action{nil, {acts[0], acts[10]}} // minersc settings + globals written once
+	e := &chainsim.Explorer{Run: run, W: w, Actions: acts, Roots: roots, Depth: run.Pick(2, 3), Budget: time.Duration(run.Pick(50, 780)) * time.Second}
 	d := &chainsim.Differential{E: e, Prop: "C06", Envs: envs.Determinism, WarmLineage: true, KeyPrefix: "C06"}
 	run.Rule = "every action sequence up to the depth bound (no dedup); each transition is executed on the same pre-state in the reference environment (sorted map order, real clock, cold cache) and again under every other environment answer: all map iteration orders of the settings loops (seam), two wall-clock answers (seam), cache warmed by the path's own lineage; (error, status, output, state root, change count, events) must be identical; distinct = distinct (root, output) pairs"
 	run.Extra["seam_sites"] = envs.SeamSites()
@@ -80,7 +101,7 @@ func c06(run *ev.Run) {
 func c07chain(run *ev.Run) {
 	w := world.New(world.Options{})
 	kvsc.Register()
-	acts := append(kvCache(w), governanceAlphabet(w)[:9]...)
+	acts := append(kvCache(w), governanceAlphabet(w)[:11]...)
 	// start states: genesis, and a state where the key exists two blocks up and the block in between did not touch it
 	roots := [][]chainsim.Action{nil, {kv(w, "c0", "rmw", kget("a"), kput("a", "1")), governanceAlphabet(w)[0]}}
 	e := &chainsim.Explorer{Run: run, W: w, Actions: acts, Roots: roots, Depth: run.Pick(3, 4), Budget: time.Duration(run.Pick(50, 780)) * time.Second}
@@ -101,7 +122,7 @@ func c02warm(run *ev.Run) {
 	w := world.New(world.Options{})
 	kvsc.Register()
 	acts := append(kvLateFailures(w), kv(w, "c1", "get2", kget("a"), kget("a")), kv(w, "c1", "rmw", kget("a"), kput("a", "7")), kv(w, "c1", "rmw-b", kget("b"), kput("b", "7")))
-	acts = append(acts, governanceAlphabet(w)[:9]...)
+	acts = append(acts, governanceAlphabet(w)[:11]...)
 	e := &chainsim.Explorer{Run: run, W: w, Actions: acts, Depth: run.Pick(3, 4), Budget: time.Duration(run.Pick(50, 600)) * time.Second}
 	d := &chainsim.Differential{E: e, Prop: "C02", WarmLineage: true, KeyPrefix: "C02:warm", Envs: envs.Cache}
 	run.Rule = "every action sequence up to the depth bound over calls that fail AFTER writing / deleting cacheable values (test contract and settings updates failing late), one successful writer, and readers / read-modify-writers of the same keys; each transition executed with a cold cache (trie only) and with the cache warmed by exactly the path's own blocks; (error, status, output, state root, change count, events) must be identical, i.e. nothing a failed call wrote is visible to a later transaction"
